@@ -63,13 +63,13 @@ static int g_exit_req, g_returned;
 static int g_acc_done;                        /* accept outcomes seen by the loop thread */
 static unsigned long long g_srv_rng;
 
-static int cl_fd[MAXCONN], cl_ok[MAXCONN], cl_closed[MAXCONN], cl_port[MAXCONN];
+static int cl_fd[MAXCONN], cl_ok[MAXCONN], cl_closed[MAXCONN], cl_port[MAXCONN], cl_seq[MAXCONN];
 static long cl_sent[MAXCONN];
 static long sv_recv[MAXCONN];
 static int sv_ctx[MAXCONN];       /* ctx id bound to the connection, -1 none */
 static int sv_closed[MAXCONN];    /* cb_close (or a failed registration) seen for that context */
 static int ctx_conn[SH_MAXCTX];   /* ctx id -> conn, -1 listener / unknown */
-static int g_connects;
+static int g_connects, g_connseq;
 
 static unsigned char pay(unsigned long long seed, int k, long j)
 {
@@ -131,7 +131,7 @@ static void *worker_main(void *arg)
 		if (cmd == W_REL || cmd == W_SHUT) {
 			if (W->nheld == 0) {           /* the retain trigger may not have fired yet */
 				struct timespec ts; clock_gettime(CLOCK_REALTIME, &ts);
-				ts.tv_nsec += 250000000L; if (ts.tv_nsec >= 1000000000L) { ts.tv_sec++; ts.tv_nsec -= 1000000000L; }
+				ts.tv_nsec += 60000000L; if (ts.tv_nsec >= 1000000000L) { ts.tv_sec++; ts.tv_nsec -= 1000000000L; }
 				while (W->nheld == 0) if (pthread_cond_timedwait(&W->cv, &W->mtx, &ts) != 0) break;
 			}
 			if (W->nheld > 0) {
@@ -294,8 +294,12 @@ static int peer_conn(int fd)
 	struct sockaddr_in in; socklen_t len = sizeof(in);
 	if (getpeername(fd, (struct sockaddr *)&in, &len) != 0) return -1;
 	int port = ntohs(in.sin_port);
-	for (int k = 0; k < MAXCONN; k++) if (cl_port[k] == port) return k;
-	return -1;
+	/* an ephemeral port can be reused by a later client of the same case once the earlier
+	 * connection is gone: take the most recent connect that has no context yet */
+	int best = -1;
+	for (int k = 0; k < MAXCONN; k++)
+		if (cl_port[k] == port && sv_ctx[k] < 0 && (best < 0 || cl_seq[k] > cl_seq[best])) best = k;
+	return best;
 }
 static void cb_conn(muggle_event_loop_t *evloop, muggle_socket_context_t *ctx)
 {
@@ -414,7 +418,8 @@ static void do_conn(int k)
 		in.sin_family = AF_INET; in.sin_addr.s_addr = htonl(INADDR_LOOPBACK); in.sin_port = 0;
 		if (fd < 0 || bind(fd, (struct sockaddr *)&in, sizeof(in)) != 0) { if (fd >= 0) close(fd); sh_logf("cfail %d", k); return; }
 		getsockname(fd, (struct sockaddr *)&in, &len);
-		cl_port[k] = ntohs(in.sin_port);
+		cl_seq[k] = ++g_connseq;
+		__atomic_store_n(&cl_port[k], ntohs(in.sin_port), __ATOMIC_SEQ_CST);
 		int one = 1;
 		setsockopt(fd, IPPROTO_TCP, TCP_NODELAY, &one, sizeof(one));
 		in.sin_port = htons((unsigned short)g_listen_port);
@@ -455,11 +460,11 @@ static void do_send(struct step *s)
 static void do_sync(void)
 {
 	double t0 = now_s();
-	while (now_s() - t0 < 0.3) {
+	while (now_s() - t0 < 0.12) {
 		int pending = 0;
 		if (__atomic_load_n(&g_returned, __ATOMIC_SEQ_CST)) break;
 		if (__atomic_load_n(&g_listener_state, __ATOMIC_SEQ_CST) == 1 &&
-			__atomic_load_n(&g_acc_done, __ATOMIC_SEQ_CST) < g_connects && now_s() - t0 < 0.1) pending = 1;
+			__atomic_load_n(&g_acc_done, __ATOMIC_SEQ_CST) < g_connects && now_s() - t0 < 0.04) pending = 1;
 		for (int k = 0; k < MAXCONN && !pending; k++) {
 			if (!cl_ok[k] || sv_ctx[k] < 0) continue;
 			if (__atomic_load_n(&sv_closed[k], __ATOMIC_SEQ_CST)) continue;
@@ -534,6 +539,9 @@ static void run_socket_case(void)
 		case S_SLEEP: { struct timespec ts = { 0, s->a * 1000L }; nanosleep(&ts, NULL); } break;
 		}
 	}
+	/* no exit in the script: let the server consume what is in flight (keeps replays of shrunk
+	 * cases reproducible), then exit from this thread */
+	if (!__atomic_load_n(&g_exit_req, __ATOMIC_SEQ_CST)) do_sync();
 	if (!__atomic_exchange_n(&g_exit_req, 1, __ATOMIC_SEQ_CST)) { sh_logf("xexit"); muggle_evloop_exit(g_evloop); }
 	{
 		struct timespec ts; clock_gettime(CLOCK_REALTIME, &ts); ts.tv_sec += 4;
@@ -590,7 +598,7 @@ static void run_pipe_case(void)
 		void *p = muggle_socket_evloop_pipe_read(&g_pipe);
 		if (p) {
 			uintptr_t v = (uintptr_t)p;
-			sh_logf("pr %d %d", (int)(v >> 32) - 1, (int)(v & 0xffffffffu) - 1);
+			sh_logf("pr %lld %lld", (long long)(v >> 32) - 1, (long long)(v & 0xffffffffu) - 1);
 			got++;
 		} else {
 			sched_yield();
